@@ -9,6 +9,10 @@ use crate::model::Meta;
 use crate::rt::{self, run_dna, run_enum, Comp};
 use crate::tarfmt::{entry_data, meta_eq_j, parse_json, walk_tar, J};
 
+fn count_maps(m: &[(String, Meta)]) -> usize {
+	1 + m.iter().map(|(_, v)| if let Meta::Map(mm) = v { count_maps(mm) } else { 0 }).sum::<usize>()
+}
+
 fn tree_features(m: &[(String, Meta)]) -> (bool, bool, bool, usize) {
 	let mut nested = false;
 	let mut negative = false;
@@ -49,6 +53,8 @@ fn check(ctx: &Ctx, meta: &Option<Vec<(String, Meta)>>, comp: Comp, label: &str,
 				if t.is_empty() {
 					ctx.class("empty_map");
 				}
+				let maps = count_maps(t);
+				ctx.class(if maps >= 128 { "maps>=128" } else if maps >= 20 { "maps>=20" } else { "maps<20" });
 				if nested {
 					ctx.class("nested_map");
 				}
@@ -126,6 +132,26 @@ fn gen_tree(dna: &[u8], depth: usize) -> (Option<Vec<(String, Meta)>>, Comp) {
 				("playedOn".into(), Meta::Str("dolphin".into())),
 			])
 		}
+		236..=249 => {
+			// wide / bushy trees: many sibling maps at small depth (format limits bound depth and string
+			// length, not the number of maps)
+			let n = match d.u8() {
+				0..=99 => 20 + d.below(120),
+				100..=199 => 120 + d.below(60),
+				_ => 130 + d.below(300),
+			};
+			let mut m = Vec::with_capacity(n);
+			for i in 0..n {
+				let v = match d.u8() {
+					0..=109 => Meta::Map(vec![]),
+					110..=179 => Meta::Map(vec![("characters".into(), Meta::Map(vec![(format!("{}", i % 26), Meta::Int(i as i32 * 7 - 300))])), ("names".into(), Meta::Map(vec![]))]),
+					180..=219 => Meta::Int(d.u16() as i32 - 20000),
+					_ => Meta::Str(crate::gen::gen_string(&mut d, 20)),
+				};
+				m.push((format!("{}", i), v));
+			}
+			Some(m)
+		}
 		250..=255 => {
 			let depth = 1 + d.below(126);
 			let mut m = vec![("leaf".to_string(), Meta::Int(-(d.u16() as i32)))];
@@ -139,7 +165,7 @@ fn gen_tree(dna: &[u8], depth: usize) -> (Option<Vec<(String, Meta)>>, Comp) {
 	(t, comp)
 }
 
-const FIXED: usize = 10;
+const FIXED: usize = 13;
 fn fixed(i: usize) -> Option<Vec<(String, Meta)>> {
 	let s = |x: &str| Meta::Str(x.to_string());
 	match i {
@@ -152,6 +178,9 @@ fn fixed(i: usize) -> Option<Vec<(String, Meta)>> {
 		6 => Some(vec![("b".into(), Meta::Map(vec![("y".into(), Meta::Int(1)), ("x".into(), Meta::Map(vec![]))])), ("a".into(), Meta::Map(vec![]))]),
 		7 => Some(vec![("10".into(), Meta::Int(1)), ("9".into(), Meta::Int(2)), ("1".into(), Meta::Int(3))]),
 		8 => Some(vec![("é".repeat(127), s(&"ß".repeat(127)))]),
+		10 => Some((0..300).map(|i| (format!("m{}", i), Meta::Map(vec![]))).collect()),
+		11 => Some((0..6).map(|a| (format!("a{}", a), Meta::Map((0..6).map(|b| (format!("b{}", b), Meta::Map((0..6).map(|c| (format!("c{}", c), Meta::Map(vec![("v".into(), Meta::Int(a * 36 + b * 6 + c))]))).collect()))).collect()))).collect()),
+		12 => Some((0..60).map(|p| (format!("{}", p), Meta::Map(vec![("characters".into(), Meta::Map(vec![("1".into(), Meta::Int(p))])), ("names".into(), Meta::Map(vec![("netplay".into(), s("x")), ("code".into(), s("A#1"))]))]))).collect()),
 		_ => {
 			let mut m = vec![("leaf".to_string(), Meta::Int(-7))];
 			for k in 0..126 {
